@@ -889,6 +889,8 @@ class NPModel(NSModel):
         if name == "ctypes":
             # arr.ctypes.data_as(T) / arr.ctypes.data: the pointer is modelled as a CPtr carrying the array itself (identity = address)
             return NSModel("ndarray.ctypes", {"data_as": B("ctypes.data_as", lambda t=None: CPtr(a)), "data": CPtr(a)})
+        if not hasattr(np.ndarray, name):
+            raise I.PyRaise(I.mk_exc("AttributeError", "'numpy.ndarray' object has no attribute '%s'" % name))
         raise I.Unsupported("ndarray attribute %s" % name)
 
     def scalar_attr(self, v, name):
@@ -1007,7 +1009,7 @@ def install_builtins(interp):
         b[n] = c
     b.update({"int": I.TYPE_INT, "float": I.TYPE_FLOAT, "bool": I.TYPE_BOOL, "str": I.TYPE_STR,
               "list": I.TYPE_LIST, "tuple": I.TYPE_TUPLE, "dict": I.TYPE_DICT, "set": I.TYPE_SET,
-              "object": I.TYPE_OBJECT, "slice": I.TYPE_SLICE, "frozenset": I.TYPE_SET,
+              "object": I.TYPE_OBJECT, "slice": I.TYPE_SLICE, "frozenset": I.TYPE_SET, "bytes": I.TYPE_BYTES,
               "None": None, "True": True, "False": False, "NotImplemented": I.Opaque("NotImplemented"),
               "Ellipsis": Ellipsis, "__debug__": True})
 
